@@ -26,6 +26,40 @@ def coq_list(names):
     return "[" + "; ".join(f'"{n}"' for n in names) + "]"
 
 
+def upper_list(up):
+    items = []
+    for n, q in sorted(up.items()):
+        a, bb = q.split("/")
+        items.append(f'("{n}", qfrac ({a}) {bb})')
+    return "[" + "; ".join(items) + "]"
+
+
+def statutory_caps(o):
+    """(node, cap computed from the IMPLEMENTATION's parameters, text) for the caps the parameters encode"""
+    params, _ = impl.env(o)
+    sv = params.get("sozialv_beitr", {})
+    out = []
+
+    def leaves(x):
+        if isinstance(x, dict):
+            for v in x.values():
+                yield from leaves(v)
+        elif isinstance(x, (int, float)) and not isinstance(x, bool):
+            yield float(x)
+
+    bbg = sv.get("beitr_bemess_grenze_m", {})
+    for branch, node_wage, node_contrib in (("ges_krankenv", "_ges_krankenv_bruttolohn_m", "_ges_krankenv_beitr_arbeitnehmer_reg_beschäftigt_m"),
+                                            ("ges_rentenv", "_ges_rentenv_beitr_bruttolohn_m", None)):
+        ceil = max(leaves(bbg.get(branch, {})), default=None)
+        if ceil is None:
+            continue
+        out.append((node_wage, ceil, f"assessment ceiling beitr_bemess_grenze_m[{branch}] = {ceil}"))
+        rates = list(leaves(sv.get("beitr_satz", {}).get(branch, {})))
+        if node_contrib and rates:
+            out.append((node_contrib, sum(rates) * ceil, f"(sum of all {branch} rate components = {sum(rates):.5f}) x ceiling {ceil}"))
+    return out
+
+
 def obligations():
     base = baseline()
     obls = []
@@ -38,7 +72,8 @@ def obligations():
             name=f"c16_proved_nodes_{d}",
             stmt=f"match find (fun od => Z.eqb (fst od) {d}) dags, PA {d} with Some od, Ok p => let K := {K} in "
                  f"let NN := nodes_with a_nn K in let FIN := nodes_with a_fin K in "
-                 f"forallb (fun n => Sign.smem n NN) {coq_list(nn)} && forallb (fun n => Sign.smem n FIN) {coq_list(b['fin_only'])} | _, _ => false end = true",
+                 f"forallb (fun n => Sign.smem n NN) {coq_list(nn)} && forallb (fun n => Sign.smem n FIN) {coq_list(b['fin_only'])} "
+                 f"&& forallb (fun nb => upper_le K (fst nb) (snd nb)) {upper_list(b.get('upper', {}))} | _, _ => false end = true",
             proof="vm_cast_no_check (@eq_refl bool true).",
             what=f"{impl.iso(d)}: the verified abstract interpreter (Absint.rule_aval_sound; regenerated rule ASTs, concrete parameters of the date, the real "
                  f"loader's graph) proves {len(fin)} nodes of the default targets' graph finite, {len(nn)} of them also non-negative "
@@ -47,6 +82,13 @@ def obligations():
                  f'let NN := nodes_with a_nn K in let FIN := nodes_with a_fin K in '
                  f'String.concat ";" (map (fun n => "{impl.iso(d)}:nn:" ++ n) (filter (fun n => negb (Sign.smem n NN)) {coq_list(nn)}) ++ '
                  f'map (fun n => "{impl.iso(d)}:fin:" ++ n) (filter (fun n => negb (Sign.smem n FIN)) {coq_list(b["fin_only"])})) | _, _ => "env" end'))
+    obls.append(dict(
+        name="c16_no_node_named_as_input",
+        stmt=f"forallb (fun od => forallb (fun n => negb (Sign.smem (d_name n) dag_data_cols)) (subgraph (snd od) default_targets)) "
+             f"(filter (fun od => Z.leb {LO} (fst od)) dags) = true",
+        proof="vm_cast_no_check (@eq_refl bool true).",
+        what="premise of C16_table_sound (TableSound.run_table_sound) on every dumped graph >= 2015: no node of the default targets' graph bears the name "
+             "of a documented input column (those nodes are replaced by the supplied column)"))
     return obls
 
 
@@ -76,6 +118,23 @@ def run(ctx, res):
     impl.setup()
     out = coqrun.prove("C16", PRELUDE + "Open Scope Z_scope.\n", obligations(), shards=12, timeout=1700)
     res.obligations += out
+    # the proved upper bounds against the caps the implementation's parameters encode
+    capstats = dict(compared=0, examples=[])
+    from fractions import Fraction
+    for dkey, b in baseline().items():
+        o = int(dkey)
+        if impl.ordinal("2017-01-01") <= o < impl.ordinal("2017-07-01"):
+            continue
+        for node, cap, text in statutory_caps(o):
+            if node in b.get("upper", {}):
+                capstats["compared"] += 1
+                hi = float(Fraction(b["upper"][node]))
+                if len(capstats["examples"]) < 6:
+                    capstats["examples"].append(f"{impl.iso(o)} {node} <= {hi:.2f} (proved) ; statutory cap {cap:.2f}: {text}")
+                if hi > cap + 1e-6:
+                    res.add_violation(f"cap-bound:{node}", f"on {impl.iso(o)} the bound proved for {node} ({hi}) exceeds the cap the parameters encode ({cap}: {text})",
+                                      dict(kind="cap-bound", date=impl.iso(o), node=node, proved=hi, cap=cap), False)
+    res.extra["proved_caps"] = capstats
     rnd = ctx.rng("c16")
     rules = ctx.load_rules()
     last = max(impl.ordinal(d) for d in rules["yaml_dates"])
